@@ -171,6 +171,29 @@ func runReconciler(in qinput) *rrun {
 		n := r.await(0)
 		r.events = append(r.events, ev)
 		r.obs = append(r.obs, qobs{Len: n, Item: item})
+		if ev.Ev == "arrive" || ev.Ev == "forget" {
+			r.obs[len(r.obs)-1].Last = r.lastObs()
+		}
+	}
+	// finish calls the hook's Finish (controller-runtime's handling of the outcome) with the
+	// limiter's `last` set for the current virtual instant, and keeps whatever the limiter's
+	// Forget -- called inside -- did to it
+	finish := func(at int64, full bool, requeue time.Duration, err error) {
+		r.mu.Lock()
+		vl := r.vlast
+		r.mu.Unlock()
+		after := vl
+		if err == nil {
+			after = r.l.around(vl, at, func() { v.Finish(full, requeue, err) })
+		} else {
+			v.Finish(full, requeue, err)
+			return
+		}
+		if after != vl {
+			r.mu.Lock()
+			r.vlast = snap(after)
+			r.mu.Unlock()
+		}
 	}
 	get := func(t int64) {
 		r.setTime(t)
@@ -231,15 +254,17 @@ func runReconciler(in qinput) *rrun {
 			calls := r.whenCalls
 			switch out {
 			case "err":
-				v.Finish(i == 1, 0, errReconcile)
+				finish(at, i == 1, 0, errReconcile)
 				if r.whenCalls != calls {
 					noteAdd(at, i, r.lastD)
 				}
 				r.requests = append(r.requests, [3]int64{at, int64(i), -1})
 				r.events = append(r.events, qevent{T: at, Ev: "arrive", Item: i})
-				r.obs = append(r.obs, qobs{Len: -1, Item: -1})
+				r.obs = append(r.obs, qobs{Len: -1, Item: -1, Last: r.lastObs()})
 			case "requeue":
-				v.Finish(i == 1, time.Duration(in.RetryNs), nil)
+				finish(at, i == 1, time.Duration(in.RetryNs), nil)
+				r.events = append(r.events, qevent{T: at, Ev: "forget", Item: i})
+				r.obs = append(r.obs, qobs{Len: -1, Item: -1, Last: r.lastObs()})
 				noteAdd(at, i, in.RetryNs)
 				if r.bypassAt < 0 {
 					r.bypassAt = at
@@ -248,7 +273,9 @@ func runReconciler(in qinput) *rrun {
 				r.events = append(r.events, qevent{T: at, Ev: "retry", Item: i, D: in.RetryNs})
 				r.obs = append(r.obs, qobs{Len: -1, Item: -1})
 			default:
-				v.Finish(i == 1, 0, nil)
+				finish(at, i == 1, 0, nil)
+				r.events = append(r.events, qevent{T: at, Ev: "forget", Item: i})
+				r.obs = append(r.obs, qobs{Len: -1, Item: -1, Last: r.lastObs()})
 			}
 			r.tw.proc = false
 			if r.tw.dirty[i] {
